@@ -139,7 +139,7 @@ def check(run):
                        "reads x one alteration with gates; one worker with altered TOC / wrong digest / broken streams; passthrough with a directory cache; "
                        "layer-level Verify/SkipVerify histories), stepped through a real VerifiableReader / layer over real eStargz blobs (gzip level 0 and 9, "
                        "zstd:chunked) whose source is patched by the concretiser; free run: Cache() x2 + VerifyTOC + 4 readers + alterations under -race; "
-                       "sweep: one history per bit flip / truncation / member substitution / member swap / re-serialised TOC; "
+                       "sweep: one history per bit flip / truncation / member substitution / member swap / re-serialised TOC / TOC with trailing bytes (zstd) / consistent TOC+chunk forgery served after Open (before VerifyTOC, before prefetch, before the background fetch's Clone), incl. an external-TOC blob; "
                        "non-trivial = trace contains a read through a mounted layer; distinct by hash")
     run.assumptions += [
         "chunk values abstracted to g (bytes the TOC records) / s (other bytes, stream valid) / k (stream broken); reads are whole chunks",
@@ -147,7 +147,8 @@ def check(run):
         "concurrent Mount calls racing on layer.r / reader.verify of one layer object are not modelled (Verify/SkipVerify calls on one layer are sequential)",
         "free-run and sweep traces are decided by the monitor only (no conformance spec of the free interleaving)",
         "ground truth of the TOC in altered blobs (sweep): 'does not hash to D' only when the driver can extract it and its digest differs",
-        "db metadata store: driven with the one-worker and passthrough graphs, a shorter free run and a coarser sweep; the two-worker gated graph and the layer histories use the memory store",
+        "db metadata store: driven with the one-worker graph (thorough: + passthrough graph), a shorter free run and a coarser sweep; the two-worker gated graph and the layer histories use the memory store",
+        "the background fetch's re-parse of the TOC (metadata Clone) is not a model action: it is exercised by the sweep histories 'forgery-after-open' (monitor only)",
     ]
     t0 = time.time()
     # ------------------------------------------------------------------ M
@@ -203,7 +204,7 @@ def check(run):
         rc, out = run.go_driver("", "./fs/reader/", OV_READER, "^TestVerifC01(%s)$" % "|".join(tests), env=env, timeout=3000)
         if rc != 0:
             report_race(run, out, "fs/reader", "+".join(tests))
-    dbjobs = [j for j in jobs if j["name"] in ("gated1", "pass")] if "db" in STAGES else []
+    dbjobs = [j for j in jobs if j["name"] in (("gated1", "pass") if thorough else ("gated1",))] if "db" in STAGES else []
     dbtests = [t for t in tests if t != "Replay" or dbjobs] if "db" in STAGES else []
     if dbtests:
         # the same driver body against the bolt metadata store (cmd module): the one-worker and passthrough graphs, a shorter free run and sweep
@@ -213,9 +214,9 @@ def check(run):
             write_json(inp, dbjobs)
             denv["VERIF_IN"] = inp
         if "VERIF_FREE_TRACES" in denv:
-            denv["VERIF_FREE_TRACES"] = "300" if thorough else "30"
+            denv["VERIF_FREE_TRACES"] = "300" if thorough else "24"
         if "VERIF_SWEEP_STRIDE" in denv:
-            denv["VERIF_SWEEP_STRIDE"] = "7" if thorough else "251"
+            denv["VERIF_SWEEP_STRIDE"] = "7" if thorough else "509"
         rc, out = run.go_driver("cmd", "./containerd-stargz-grpc/db/", OV_DB, "^TestVerifC01(%s)$" % "|".join(dbtests), env=denv, timeout=3000)
         if rc != 0:
             report_race(run, out, "db", "+".join(dbtests))
